@@ -184,6 +184,11 @@ package history
 //@   requires hvalid(h) && allok() && !h.undoing
 //@   assigns h.skip, h.undoing, *h.line, h.cursor.pos, h.cursor.mark, mapof(h.lines), anymapof("map[int]*lineHistory"), anyof("lineHistory", "pos"), anyof("lineHistory", "items")
 //@   ensures [ri] allok()
+//@   ensures @C07 [restores-initial] old(hnorm(h)) && old(len(curlh(h).items)) > 0 ==> *h.line == runes(old(curlh(h).items[0].line))
+// the undo history restarts from the restored text: it is emptied, and the save that follows the command is
+// not skipped, so that text becomes items[0] again (Save [saved]) and "undoing repeatedly reaches the initial
+// content" keeps holding for the edits made after a revert
+//@   ensures @C07 [restarts-from-initial] old(hnorm(h)) && old(len(curlh(h).items)) > 0 ==> curlh(h) == old(curlh(h)) && len(curlh(h).items) == 0 && curlh(h).pos == 0 && !h.skip && !h.undoing
 
 // ---------------------------------------------------------------------------------------
 // C08: accepted lines are recorded exactly once
